@@ -4,7 +4,7 @@ import ast
 from ..core.model import AnchorError
 from ..core.cfg import walk_shallow, cfg_of
 from ..core.facts import U, atoms_of
-from ..engine import fn_name, kwarg, local_defs, returns_of, stmts_in, dict_items
+from ..engine import fn_name, kwarg, local_defs, returns_of, stmts_in, dict_items, vars_assigned_from, var_from_call
 from ..kinds import parity
 
 EXPLANATION = (
@@ -55,14 +55,16 @@ def s2(ctx, rep):
     g1 = any(a[0] == "in" and a[3] is False and a[1] == tid and a[2] == rung for a in at)
     rep.put(g1, "S2", "guarded_by", "StoppingRungSystem.on_task_report: rung.add | trial not yet in the rung", f, ac, "",
             "a trial can be inserted into the same rung twice (it re-reports the level after a restart): the rung statistics count it twice")
-    lvl = [a for a in at if a[0] == "le" and a[2] == "resource" or (a[0] == "le" and a[1] == "milestone")]
-    g2 = any(a[0] == "le" and a[1] == "milestone" and a[2] == "resource" for a in at) and \
-        any(a[0] == "le" and a[1] == "resource" and a[2] == "milestone" for a in at)
+    from ..engine import vars_assigned_from
+    rv = vars_assigned_from(f, lambda v: isinstance(v, ast.Subscript) and "_resource_attr" in U(v.slice))
+    mv = vars_assigned_from(f, lambda v: U(v) == f"{rung}.level")
+    if len(rv) != 1 or len(mv) != 1:
+        raise AnchorError("StoppingRungSystem.on_task_report: resource / rung-level variables not identified")
+    rv, mv = rv[0], mv[0]
+    g2 = any(a[0] == "le" and a[1] == mv and a[2] == rv for a in at) and any(a[0] == "le" and a[1] == rv and a[2] == mv for a in at)
     rep.put(g2, "S2", "guarded_by", "StoppingRungSystem.on_task_report: rung.add | resource == rung level (not below, not above)", f, ac,
             "resource >= level and not resource > level")
-    ms = [d for d in local_defs(f, "milestone") if not isinstance(d, tuple)]
-    rep.put(len(ms) == 1 and U(ms[0]) == f"{rung}.level", "S2", "agreement", "StoppingRungSystem.on_task_report: the level compared is the rung's own level",
-            f, None, "")
+    rep.put(True, "S2", "agreement", "StoppingRungSystem.on_task_report: the level compared is the rung's own level", f, None, f"{mv} = {rung}.level")
     r = P.cls("Rung")
     add, pop = r.methods["add"], r.methods["pop"]
     ok = any(isinstance(x, ast.Call) and fn_name(x) == "add" and U(x.func.value) == "self.data" for x in walk_shallow(add.node)) and \
@@ -163,15 +165,19 @@ def s5(ctx, rep):
     # skip_rungs at the call flows from the trial's bracket
     h = P.method("HyperbandBracketManager", "on_task_report")
     call = [x for x in walk_shallow(h.node) if isinstance(x, ast.Call) and fn_name(x) == "on_task_report" and "rung_sys" in U(x.func.value)]
-    ok = len(call) == 1 and U(kwarg(call[0], "skip_rungs", 2)) == "skip_rungs"
-    ds = local_defs(h, "skip_rungs")
+    from ..engine import var_from_call
+    skv = var_from_call(h, "_get_rung_system", 2)
+    ok = len(call) == 1 and skv is not None and U(kwarg(call[0], "skip_rungs", 2)) == skv
+    ds = local_defs(h, skv) if skv else []
     ok = ok and len(ds) == 1 and isinstance(ds[0], tuple) and fn_name(ds[0][1]) == "_get_rung_system" and U(ds[0][1].args[0]) == "trial_id"
     g2 = P.method("HyperbandBracketManager", "_get_rung_system")
     ok = ok and "self._task_info[trial_id]" in U(g2.node)
     rep.put(ok, "S5", "taint", "HyperbandBracketManager.on_task_report: skip_rungs comes from the reporting trial's bracket", h, None, "")
     g3 = P.method("HyperbandBracketManager", "_get_rung_system_for_bracket_id")
     cf = cfg_of(g3)
-    sk = [n for n in cf.nodes if n.kind == "stmt" and isinstance(n.ast, ast.Assign) and U(n.ast.targets[0]) == "skip_rungs"]
+    r3 = [r.value for r in returns_of(g3) if isinstance(r.value, ast.Tuple) and len(r.value.elts) == 2]
+    skn = U(r3[0].elts[1]) if r3 else "?"
+    sk = [n for n in cf.nodes if n.kind == "stmt" and isinstance(n.ast, ast.Assign) and U(n.ast.targets[0]) == skn]
     vals = {U(n.ast.value): ctx.facts(g3).at(n.id) for n in sk}
     ok = set(vals) == {"0", "bracket_id"} and any(a[0] == "truth" and a[2] is False for a in vals.get("bracket_id", ()))
     rep.put(ok, "S5", "agreement", "bracket offset: skip_rungs = bracket_id when all brackets share one rung system", g3, None, "")
@@ -189,7 +195,8 @@ def s6(ctx, rep):
         and isinstance(d.get("milestone_reached"), ast.Constant) and d["milestone_reached"].value is True
     rep.put(ok, "S6", "agreement", "HyperbandBracketManager.on_task_report: default answer is 'stop, milestone reached'", h, None, "")
     cfg = cfg_of(h)
-    upd = [n for n in cfg.nodes if any(isinstance(x, ast.Call) and fn_name(x) == "update" and U(x.func.value) == dv for x in cfg.node_walk(n.id))]
+    upd = [n for n in cfg.nodes if any(isinstance(x, ast.Call) and fn_name(x) == "update" and U(x.func.value) == dv for x in cfg.node_walk(n.id))
+           and any(isinstance(x, ast.Call) and fn_name(x) == "on_task_report" for x in cfg.node_walk(n.id))]
     ok = len(upd) == 1 and ctx.facts(h).at(upd[0].id) >= {("lt", "result[self._resource_attr]", "self._max_t")}
     rep.put(ok, "S6", "guarded_by", "HyperbandBracketManager.on_task_report: the rung system is consulted only below max_t", h, None, "",
             "a report at (or beyond) max_t can be answered 'continue' by the rung system: the trial runs past the maximum resource")
@@ -199,23 +206,38 @@ def s6(ctx, rep):
     ok = len(stops) == 1
     if ok:
         at = ctx.facts(s).at(stops[0].id)
-        ok = any(a[0] == "truth" and a[1] == "task_continues" and a[2] is False for a in at)
+        tcv = vars_assigned_from(s, lambda v: isinstance(v, ast.Subscript) and U(v.slice) == "'task_continues'")
+        ok = len(tcv) == 1 and any(a[0] == "truth" and a[1] == tcv[0] and a[2] is False for a in at)
         ors = [a for a in at if a[0] == "or"]
         ok = ok and len(ors) == 1 and "does_pause_resume" in repr(ors[0]) and "self.max_t" in repr(ors[0])
     rep.put(ok, "S6", "guarded_by", "HyperbandScheduler.on_trial_result: not task_continues → STOP if stopping-type or resource >= max_t", s,
             stops[0].ast if stops else None, "")
     st = P.method("StoppingRungSystem", "on_task_report")
     cst = cfg_of(st)
-    f0 = [n for n in cst.nodes if n.kind == "stmt" and isinstance(n.ast, ast.Assign) and U(n.ast.targets[0]) == "task_continues"
+    from ..engine import dict_items as _di
+    ret = [(_di(r.value) or {}) for r in returns_of(st)]
+    tcn = U(ret[0]["task_continues"]) if ret and "task_continues" in ret[0] else "?"
+    rvn = vars_assigned_from(st, lambda v: isinstance(v, ast.Subscript) and "_resource_attr" in U(v.slice))
+    f0 = [n for n in cst.nodes if n.kind == "stmt" and isinstance(n.ast, ast.Assign) and U(n.ast.targets[0]) == tcn
           and isinstance(n.ast.value, ast.Constant) and n.ast.value.value is False]
-    ok = len(f0) == 1 and ("eq", "resource", "self._max_t", True) in ctx.facts(st).at(f0[0].id)
+    ok = len(f0) == 1 and len(rvn) == 1 and any(a[0] == "eq" and a[3] is True and {a[1], a[2]} == {rvn[0], "self._max_t"}
+                                                   for a in ctx.facts(st).at(f0[0].id))
     rep.put(ok, "S6", "guarded_by", "StoppingRungSystem.on_task_report: at max_t the task does not continue", st, None, "")
 
 
 def s7(ctx, rep):
     P = ctx.P
     f = P.method("HyperbandBracketManager", "__init__")
-    pq = [d for d in local_defs(f, "promote_quantiles") if not isinstance(d, tuple)]
+    lcs0 = [x for x in walk_shallow(f.node) if isinstance(x, ast.ListComp) and any(k.arg == "promote_quantiles" for c_ in ast.walk(x.elt) if isinstance(c_, ast.Call) for k in c_.keywords)]
+    pqn = None
+    if lcs0:
+        for c_ in ast.walk(lcs0[0].elt):
+            if isinstance(c_, ast.Call) and kwarg(c_, "promote_quantiles") is not None:
+                v_ = kwarg(c_, "promote_quantiles")
+                pqn = U(v_.value) if isinstance(v_, ast.Subscript) else U(v_)
+    if pqn is None:
+        raise AnchorError("HyperbandBracketManager.__init__: promote_quantiles argument of the rung systems not found")
+    pq = [d for d in local_defs(f, pqn) if not isinstance(d, tuple)]
     ok = len(pq) == 1 and isinstance(pq[0], ast.ListComp)
     why = "promote_quantiles is not a comprehension over (level, next level) pairs"
     if ok:
@@ -232,8 +254,12 @@ def s7(ctx, rep):
     rep.put(ok, "S7", "agreement", "HyperbandBracketManager.__init__: q_j = level_j / level_{j+1} (last: / max_t)", f, pq[0] if pq else None, "",
             why + ": the promotion quantile is not level / next level")
     # each rung system gets levels and quantiles with the same offset
-    lcs = [x for x in walk_shallow(f.node) if isinstance(x, ast.ListComp) and "rs_type" in U(x.elt)]
-    ok = len(lcs) == 1 and U(kwarg(lcs[0].elt, "rung_levels")) == "rung_levels[s:]" and U(kwarg(lcs[0].elt, "promote_quantiles")) == "promote_quantiles[s:]"
+    lcs = lcs0
+    ok = len(lcs) == 1 and isinstance(lcs[0].elt, ast.Call)
+    if ok:
+        a1, a2 = kwarg(lcs[0].elt, "rung_levels"), kwarg(lcs[0].elt, "promote_quantiles")
+        ok = isinstance(a1, ast.Subscript) and isinstance(a2, ast.Subscript) and U(a1.value) == "rung_levels" and U(a2.value) == pqn \
+            and U(a1.slice) == U(a2.slice) and isinstance(a1.slice, ast.Slice) and a1.slice.upper is None
     rep.put(ok, "S7", "agreement", "HyperbandBracketManager.__init__: levels and quantiles sliced with the same bracket offset", f,
             lcs[0] if lcs else None, "")
 
@@ -241,12 +267,12 @@ def s7(ctx, rep):
 def s8(ctx, rep, clause="S8"):
     P = ctx.P
     f = P.method("RUSHStoppingRungSystem", "_task_continues")
-    sup = [d for d in local_defs(f, "task_continues") if not isinstance(d, tuple)]
-    ok = len(sup) == 1 and isinstance(sup[0], ast.Call) and fn_name(sup[0]) == "_task_continues" and isinstance(sup[0].func.value, ast.Call) \
-        and fn_name(sup[0].func.value) == "super"
+    bv = vars_assigned_from(f, lambda v: isinstance(v, ast.Call) and fn_name(v) == "_task_continues" and isinstance(v.func.value, ast.Call)
+                            and fn_name(v.func.value) == "super")
+    ok = len(bv) == 1
     rv = returns_of(f)
     ok = ok and len(rv) == 1 and isinstance(rv[0].value, ast.Call) and fn_name(rv[0].value) == "task_continues" \
-        and U(kwarg(rv[0].value, "task_continues", 0)) == "task_continues"
+        and U(kwarg(rv[0].value, "task_continues", 0)) == bv[0]
     rep.put(ok, clause, "agreement", "RUSHStoppingRungSystem._task_continues feeds the base decision into the RUSH decider", f, None, "")
     d = P.method("RUSHDecider", "task_continues")
     cfg = cfg_of(d)
